@@ -634,13 +634,13 @@ impl Property for C17 {
     }
     fn cases(&self, tier: Tier) -> u64 {
         match tier {
-            Tier::Quick => 6_000,
+            Tier::Quick => 60_000,
             Tier::Thorough => 4_000_000,
         }
     }
     fn min_nontrivial(&self, tier: Tier) -> u64 {
         match tier {
-            Tier::Quick => 1_000,
+            Tier::Quick => 10_000,
             Tier::Thorough => 700_000,
         }
     }
